@@ -222,6 +222,32 @@ func vC20Run(k *vKit, c vSx) (obs vSx, failOracle, failDetail string, nontrivial
 		case 5:
 			imp.Close()
 			out = append(out, vL(vZ(5)))
+		case 6:
+			// wrapper.Average() on a meter that is NOT started (the generator only emits it then):
+			// must be refused, and a refused read must not observe the counter
+			t, cnt := op.l[1].i64(), op.l[2].u64()
+			_ = t
+			src.c = cnt
+			avgBefore, createBefore := imp.average, imp.create
+			src.live = true
+			var v float64
+			msg := vPanicText(func() {
+				if kind == 1 {
+					v = kr.Average()
+				} else {
+					v = kb.Average()
+				}
+			})
+			src.live = false
+			if msg != "" {
+				out = append(out, vL(vZ(6), vZ(0)))
+			} else {
+				out = append(out, vL(vZ(6), vZ(1), vU(math.Float64bits(v)), vZ(0)))
+				bad("refused", "Average() before start was not refused")
+			}
+			if imp.average != avgBefore || !imp.create.Equal(createBefore) {
+				bad("refused", fmt.Sprintf("a refused Average() changed the meter's state (baseline %d -> %d)", avgBefore, imp.average))
+			}
 		default:
 			out = append(out, vL(vZ(-1)))
 		}
@@ -247,15 +273,22 @@ func vC20Gen(r *vRng) vSx {
 	default:
 		c = uint64(r.intn(1000000))
 	}
+	started := false
 	for i := 0; i < n; i++ {
 		switch r.intn(12) {
 		case 0:
 			ops = append(ops, vL(vZ(3)))
+			started = true
 		case 1:
-			ops = append(ops, vL(vZ(4), vI(r.pickInt(10, 30, 300))))
+			if !started && r.chance(1, 2) {
+				ops = append(ops, vL(vZ(6), vZ(t), vU(c)))
+			} else {
+				ops = append(ops, vL(vZ(4), vI(r.pickInt(10, 30, 300))))
+			}
 		case 2:
 			if r.chance(1, 6) {
 				ops = append(ops, vL(vZ(5)))
+				started = false
 			} else {
 				ops = append(ops, vL(vZ(2), vZ(t), vU(c)))
 			}
@@ -361,6 +394,10 @@ func TestVerifC20Judge(t *testing.T) {
 				want := vC20Rate(m.l[1], m.l[2], false, kind)
 				if got := math.Float64frombits(a.l[1].u64()); got != want {
 					return fmt.Sprintf("op %d average: impl %v, model %v", j, got, want)
+				}
+			case 6:
+				if a.l[1].i64() != m.l[1].i64() {
+					return fmt.Sprintf("op %d: refusal of Average differs: impl %s model %s", j, a, m)
 				}
 			case 4:
 				if a.l[1].i64() != m.l[1].i64() {
